@@ -1,3 +1,4 @@
+import builtins
 import json
 import sys
 from abc import ABC, abstractmethod
@@ -305,9 +306,12 @@ class OvertlyBadEvals(Analysis):
             if (
                 hasattr(node.func, "id")
                 and node.func.id in context.pickled.properties.likely_safe_imports
+                and not hasattr(builtins, node.func.id)
             ):
                 # if the call is to a constructor of an object imported from the Python
-                # standard library, it's probably okay
+                # standard library, it's probably okay -- unless the name is also a builtin:
+                # builtins are decompiled without an import, so a call to e.g. the builtin
+                # `__import__` cannot be told apart from `importlib.__import__` by name alone
                 continue
             shortened, already_reported = context.shorten_code(node)
             if (
